@@ -132,12 +132,70 @@ func NewPanicError(v interface{}) *PanicError {
 	return &PanicError{v, stack()}
 }
 
+// containsItself reports whether following the pointers, maps and slices of v leads back
+// to one of them (or goes deeper than anything printable): fmt would not return from it.
+func containsItself(v reflect.Value, path map[uintptr]bool, depth int) bool {
+	if depth > 64 {
+		return true
+	}
+	switch v.Kind() {
+	case reflect.Ptr, reflect.Map, reflect.Slice:
+		if v.IsNil() {
+			return false
+		}
+		p := v.Pointer()
+		if path[p] {
+			return true
+		}
+		path[p] = true
+		defer delete(path, p)
+	}
+	switch v.Kind() {
+	case reflect.Ptr, reflect.Interface:
+		return !v.IsNil() && containsItself(v.Elem(), path, depth+1)
+	case reflect.Slice, reflect.Array:
+		for i := 0; i < v.Len(); i++ {
+			if containsItself(v.Index(i), path, depth+1) {
+				return true
+			}
+		}
+	case reflect.Map:
+		for _, k := range v.MapKeys() {
+			if containsItself(v.MapIndex(k), path, depth+1) {
+				return true
+			}
+		}
+	case reflect.Struct:
+		for i := 0; i < v.NumField(); i++ {
+			if containsItself(v.Field(i), path, depth+1) {
+				return true
+			}
+		}
+	}
+	return false
+}
+
+func (pe *PanicError) message() string {
+	switch v := pe.Panic.(type) {
+	case error:
+		return v.Error()
+	case string:
+		return v
+	}
+	if pe.Panic != nil && containsItself(reflect.ValueOf(pe.Panic), map[uintptr]bool{}, 0) {
+		// panic(m) with a map m that contains itself: %v would recurse until the stack is
+		// exhausted, while the error of the call is being produced
+		return fmt.Sprintf("panic with a value of type %T that contains itself", pe.Panic)
+	}
+	return fmt.Sprintf("%v", pe.Panic)
+}
+
 // Error implements the PanicError Error method.
 func (pe *PanicError) Error() string {
-	return fmt.Sprintf("%v", pe.Panic)
+	return pe.message()
 }
 
 // String returns the panic error message and stack.
 func (pe *PanicError) String() string {
-	return fmt.Sprintf("%v\r\n%s", pe.Panic, pe.Stack)
+	return fmt.Sprintf("%s\r\n%s", pe.message(), pe.Stack)
 }
